@@ -37,6 +37,7 @@ type tr struct {
 	fn     string
 	result string          // "res" = (T, error); "bool"; or an integer type
 	calls  map[string]bool // translated functions this one calls
+	errVar map[string]string // error variables of `v, err := F(…)` inside the arm of the callee's answer: the Res constructor
 }
 
 // sig is the signature of a top-level function of the file (calls between translated functions).
@@ -258,12 +259,33 @@ func leanTy(x ty) string {
 		return "IntTy.i64"
 	case "uint8":
 		return "IntTy.u8"
+	case "uint", "uintptr": // 64-bit platforms
+		return "IntTy.u64"
+	case "int":
+		return "IntTy.i64"
+	case "uint32":
+		return "IntTy.u32"
+	case "int32":
+		return "IntTy.i32"
+	case "uint16":
+		return "IntTy.u16"
+	case "int16":
+		return "IntTy.i16"
+	case "int8":
+		return "IntTy.i8"
 	}
 
 	return "IntTy.BAD"
 }
 
-func isIntTy(x ty) bool { return x == "T" || x == "uint64" || x == "int64" || x == "uint8" }
+func isIntTy(x ty) bool {
+	switch x {
+	case "T", "uint64", "int64", "uint32", "int32", "uint16", "int16", "uint8", "int8", "uint", "int", "uintptr":
+		return true
+	}
+
+	return false
+}
 
 func unify(a, b ty) ty {
 	if a == "lit" {
@@ -420,6 +442,12 @@ func (t *tr) expr(e ast.Expr) (string, ty) {
 			if pk, ok := sel.X.(*ast.Ident); ok {
 				name := pk.Name + "." + sel.Sel.Name
 				switch name {
+				case "unsafe.Sizeof": // of a value of the type parameter: the width in bytes (an untyped constant in Go)
+					if len(e.Args) == 1 {
+						if _, k := t.expr(e.Args[0]); k == "T" {
+							return "((T.bits : Int) / 8)", "lit"
+						}
+					}
 				case "lo.Return1":
 					if len(e.Args) == 1 {
 						s, k := t.expr(e.Args[0])
@@ -540,11 +568,29 @@ func (t *tr) block(stmts []ast.Stmt, depth int, k func(depth int) string) string
 				// v, err := F(...); if err != nil { return …, err }   (the error of the callee is passed on)
 				txt, sg, _ := t.callText(call)
 				v, ev := s.Lhs[0].(*ast.Ident), s.Lhs[1].(*ast.Ident)
-				if len(rest) == 0 || !isErrPropagation(rest[0], ev.Name) {
-					t.fail(s, "result of a (T, error) call must be followed by `if err != nil { return …, err }`")
+				if len(rest) == 0 || !isErrCheck(rest[0], ev.Name) {
+					t.fail(s, "result of a (T, error) call must be followed by `if err != nil { … return … }`")
 
 					return ""
 				}
+				errBody := rest[0].(*ast.IfStmt).Body.List
+				arm := func(con string) string {
+					if t.errVar == nil {
+						t.errVar = map[string]string{}
+					}
+					saved := t.snapshot()
+					t.errVar[ev.Name] = con
+					b := t.block(errBody, depth+2, func(int) string {
+						t.fail(rest[0], "the error branch must return")
+
+						return ""
+					})
+					delete(t.errVar, ev.Name)
+					t.restore(saved)
+
+					return fmt.Sprintf("%s| %s =>\n%s", ind(depth), con, b)
+				}
+				armOv, armDz := arm("Res.overflow"), arm("Res.divzero")
 				rty := ty("T")
 				if !sg.generic {
 					rty = resultInt[id.Name]
@@ -552,8 +598,8 @@ func (t *tr) block(stmts []ast.Stmt, depth int, k func(depth int) string) string
 				t.env[v.Name] = rty
 				body := t.block(rest[1:], depth+1, k)
 
-				return fmt.Sprintf("%smatch %s with\n%s| Res.overflow => Res.overflow\n%s| Res.divzero => Res.divzero\n%s| Res.panic => Res.panic\n%s| Res.ok %s =>\n%s",
-					ind(depth), txt, ind(depth), ind(depth), ind(depth), ind(depth), leanName(v.Name), body)
+				return fmt.Sprintf("%smatch %s with\n%s%s%s| Res.panic => Res.panic\n%s| Res.ok %s =>\n%s",
+					ind(depth), txt, armOv, armDz, ind(depth), ind(depth), leanName(v.Name), body)
 			}
 		}
 		if len(s.Rhs) == 1 && len(s.Lhs) == 2 {
@@ -590,7 +636,22 @@ func (t *tr) block(stmts []ast.Stmt, depth int, k func(depth int) string) string
 		return fmt.Sprintf("%slet %s : %s := %s\n", ind(depth), leanName(id.Name), tyAnn, e) + cont(depth)
 	case *ast.IfStmt:
 		if s.Init != nil {
-			t.fail(s, "if with init statement")
+			// `if v := e; cond {…}`: v is scoped to the statement; as a `let` in front of it that is the same unless v
+			// shadows a variable the rest of the block may use
+			if as, ok := s.Init.(*ast.AssignStmt); ok && as.Tok == token.DEFINE {
+				for _, l := range as.Lhs {
+					if id, ok := l.(*ast.Ident); ok {
+						if _, shadows := t.env[id.Name]; shadows {
+							t.fail(s, "if-init shadows "+id.Name)
+						}
+					}
+				}
+				plain := *s
+				plain.Init = nil
+
+				return t.block(append([]ast.Stmt{s.Init, &plain}, rest...), depth, k)
+			}
+			t.fail(s, "if with an init statement that is not a short variable declaration")
 		}
 		c, _ := t.expr(s.Cond)
 		if !mayReturn(s) {
@@ -668,6 +729,22 @@ var compoundOps = map[token.Token]token.Token{
 
 // integer result type of the non-generic (T, error) functions
 var resultInt = map[string]ty{}
+
+// isErrCheck recognises `if err != nil { … }` (the body is translated once per error the callee can answer).
+func isErrCheck(s ast.Stmt, errName string) bool {
+	is, ok := s.(*ast.IfStmt)
+	if !ok || is.Init != nil || is.Else != nil {
+		return false
+	}
+	c, ok := is.Cond.(*ast.BinaryExpr)
+	if !ok || c.Op != token.NEQ {
+		return false
+	}
+	x, ok1 := c.X.(*ast.Ident)
+	y, ok2 := c.Y.(*ast.Ident)
+
+	return ok1 && ok2 && x.Name == errName && y.Name == "nil"
+}
 
 // isErrPropagation recognises `if err != nil { return <anything>, err }`.
 func isErrPropagation(s ast.Stmt, errName string) bool {
@@ -767,6 +844,11 @@ func (t *tr) ret(s *ast.ReturnStmt) string {
 		e, _ := t.expr(s.Results[0])
 
 		return "Res.ok " + e
+	}
+	if id, ok := s.Results[1].(*ast.Ident); ok {
+		if con, ok := t.errVar[id.Name]; ok {
+			return con // the callee's error is passed on unchanged
+		}
 	}
 	site := func(res string) {
 		sites = append(sites, fmt.Sprintf("  { fn := %s, line := %d, res := %s, toks := [%s] }", leanStr(t.fn), t.fset.Position(s.Pos()).Line, leanStr(res),
